@@ -252,6 +252,7 @@ def run(res, prop, props_v, monitor, quick_n=(110, 36), thorough_n=(1500, 60), r
     res.cov["distinct_nontrivial"] = len(distinct)
     res.cov["traces_validated_against_impl"] = validated
     res.cov["traces_compared_up_to_a_scheduler_choice"] = sched_dep
+    res.cov["generator_processes_out_of_time"] = len(brokerlib.GEN_TIMEOUTS)
     res.cov["rule"] = ("sessions generated online against the real broker (built from /repo with -tags verif, booted in-process, driven by a raw "
                        "frame client; one request at a time, quiescence detected through the verif hooks): `exact` sessions are compared step by "
                        "step (frames per connection and projected snapshot) with the Coq model run by the extracted runner; `racy` sessions "
